@@ -177,6 +177,24 @@ func init() {
 					}
 				}
 			}
+			// signed numbers next to multi-byte white space, and runs of multi-byte white space: byte length and
+			// character count differ, TrimSpace removes them, Atoi accepts a sign (guards on one measure, slices on the other)
+			for _, pre := range []string{"", "\u00a0", "\u2003"} {
+				for _, num := range []string{"-1", "+1", "-0", "1", "-9999", "-12"} {
+					for _, suf := range []string{"", "\u00a0", "\u0085", "\u3000", "\u00a0\u00a0", "\u00a0*", " "} {
+						mt := own + pre + num + suf
+						res, _ := tt.Parse(mt)
+						o.Case("tag:parse", res, tt.Name, mt)
+					}
+				}
+			}
+			for k := 1; k <= 12; k++ {
+				for _, wsr := range []string{"\u00a0", "\u3000"} {
+					mt := own + strings.Repeat(wsr, k)
+					res, _ := tt.Parse(mt)
+					o.Case("tag:parse", res, tt.Name, mt)
+				}
+			}
 			for _, t := range []string{"", own, own + "*", own + "**", own[:3], "{9999}ABC", own + strings.Repeat("*", 40), own + strings.Repeat("A", 5000), own + "\xc3\xa9\xc3\xa9\xc3\xa9\xc3\xa9\xc3\xa9\xc3\xa9\xc3\xa9\xc3\xa9\xc3\xa9\xc3\xa9\xc3\xa9\xc3\xa9"} {
 				res, _ := tt.Parse(t)
 				o.Case("tag:parse", res, tt.Name, t)
